@@ -21,11 +21,30 @@ structure TP where
   line : Int
   args : Args
   watches : List String
-  metrics : List MetricDefinition
+  metrics : List PMetric          -- as received (protobuf getter view); converted per tracepoint
 deriving Repr
 
+/-- what converting ONE tracepoint gives: the metric definitions are converted (`MetricType.Name` raises for a type
+    number this version does not know), then `build_trigger` (`None` for a stage it cannot interpret) -/
+inductive Outcome where
+  | raised                        -- an exception left the conversion of this tracepoint
+  | uninterpretable               -- build_trigger returned None
+  | built (t : Trigger)
+deriving Repr
+
+def TP.outcome (tp : TP) : Outcome :=
+  match convert_metric_definition tp.metrics with
+  | none => .raised
+  | some ms =>
+    match build_trigger tp.id tp.path tp.line tp.args tp.watches ms with
+    | none => .uninterpretable
+    | some t => .built t
+
+/-- the trigger of a tracepoint the agent can convert AND interpret -/
 def TP.build (tp : TP) : Option Trigger :=
-  build_trigger tp.id tp.path tp.line tp.args tp.watches tp.metrics
+  match tp.outcome with
+  | .built t => some t
+  | _ => none
 
 /-! ### the documented table -/
 namespace Spec
@@ -102,9 +121,10 @@ def trigger (id path : String) (line : Int) (args : Args) (watches : List String
   (locationOf path line args).map (fun l => { location := l, actions := actionsOf id args watches metrics })
 
 /-- metric definitions arrive unchanged: name, type name, labels (static value or expression), expression,
-    namespace, help, unit -/
-def metricDef (m : PMetric) : MetricDefinition :=
-  { name := m.name, type := (["COUNTER", "GAUGE", "HISTOGRAM", "SUMMARY"][m.type]?).getD "",
+    namespace, help, unit; a type number outside the four documented ones cannot be converted (`none`) -/
+def metricDef (m : PMetric) : Option MetricDefinition :=
+  (["COUNTER", "GAUGE", "HISTOGRAM", "SUMMARY"][m.type]?).map fun tyName =>
+  { name := m.name, type := tyName,
     labels := m.labelExpressions.map (fun l => { key := l.key, static := l.static, expression := l.expression }),
     expression := m.expression, «namespace» := m.«namespace», help := m.help, unit := m.unit }
 
@@ -126,6 +146,25 @@ def stepResponse (acc : List Trigger) (tp : TP) : List Trigger :=
 def convertResponseFrom (acc : List Trigger) (tps : List TP) : List Trigger := tps.foldl stepResponse acc
 
 def convertResponse (tps : List TP) : List Trigger := convertResponseFrom [] tps
+
+/-- the loop as the source has it, with its two guards read from the source: an exception while converting a
+    tracepoint is caught (`convertResponseGuardsBuild`) and a `None` trigger is skipped (`convertResponseSkipsNone`);
+    without a guard the exception / the `AttributeError` on `None` leaves `convert_response` and the WHOLE response is
+    lost (`none`) -/
+def stepRaw (acc : List Trigger) (tp : TP) : Option (List Trigger) :=
+  match tp.outcome with
+  | .raised => if convertResponseGuardsBuild then some acc else none
+  | .uninterpretable => if convertResponseSkipsNone then some acc else none
+  | .built t => some (mergeInto acc t)
+
+def convertResponseRaw : List Trigger → List TP → Option (List Trigger)
+  | acc, [] => some acc
+  | acc, tp :: rest => (stepRaw acc tp).bind (fun acc' => convertResponseRaw acc' rest)
+
+/-- where a trigger sits, without the (uninterpreted) START / END / CAPTURE position -/
+def place : Location → Location
+  | .LineLocation p l _ => .LineLocation p l .START
+  | .FunctionLocation p n _ => .FunctionLocation p n .START
 
 /-- `TracepointConfigService.add_custom` for a list of registrations: the custom list afterwards (`none` = a `None`
     entry, on which the handler fails at every event).  Whether the `None` of an uninterpretable registration is
